@@ -251,11 +251,7 @@ class ModuleVistor(NodeVisitor):
             # import cycles (maybe in TYPE_CHECKING blocks). 
             # None bases will be re-resolved in post-processing.
             expandbase = parent.expandName(str_base)
-            try:
-                # The base may have been moved by a re-export already.
-                baseobj = self.system.find_object(expandbase)
-            except LookupError:
-                baseobj = None
+            baseobj = self.system.objForFullName(expandbase)
             
             if not isinstance(baseobj, model.Class):
                 baseobj = None
